@@ -12,6 +12,9 @@ import threading
 _tl = threading.local()
 _current = [None]
 _installed = False
+# finer yield points inside the output stage (after Output() is constructed, before each statement is formatted, before the
+# regrouping): too many for exhaustive enumeration, so they are only active while FINE[0] is set (sampled schedules)
+FINE = [False]
 
 
 class Baton:
@@ -104,6 +107,31 @@ def install():
             missing.append("Parser.parse_statement")
     except Exception as e:
         missing.append("Parser.parse_statement: %r" % (e,))
+    try:
+        from simple_ddl_parser.output import core as C
+        O = C.Output
+        o_init = O.__init__
+
+        def w_init(self, *a, **k):
+            r = o_init(self, *a, **k)
+            if FINE[0]:
+                yp("after_output_init")
+            return r
+        O.__init__ = w_init
+        for meth, tag in (("process_statement_data", "before_output_statement"), ("process_alter_and_index_result", "before_output_alter"),
+                          ("group_by_type_result", "before_regrouping")):
+            if hasattr(O, meth):
+                def mk(orig, tag):
+                    def w(self, *a, **k):
+                        if FINE[0]:
+                            yp(tag)
+                        return orig(self, *a, **k)
+                    return w
+                setattr(O, meth, mk(getattr(O, meth), tag))
+            else:
+                missing.append("Output." + meth)
+    except Exception as e:
+        missing.append("Output: %r" % (e,))
     return missing
 
 
